@@ -127,7 +127,7 @@ pub fn check_hier(c: &HCase, obs: &mut Obs) {
     obs.class_if(n == 0, "n_eq_0");
     obs.class_if(n == 1, "n_eq_1");
     obs.class_if(n == 2, "n_eq_2");
-    let x = to_arr(&c.x);
+    let x = to_arr::<f64>(&c.x);
     let kind = match c.sparse_k {
         Some(k) if n >= 2 => KernelType::Sparse(1 + idx(k, n - 1)),
         _ => KernelType::Dense,
